@@ -68,6 +68,13 @@ module Coq__1 = struct
 end
 include Coq__1
 
+(** val mul : nat -> nat -> nat **)
+
+let rec mul n0 m =
+  match n0 with
+  | O -> O
+  | S p -> add m (mul p m)
+
 type positive =
 | XI of positive
 | XO of positive
@@ -364,6 +371,15 @@ module N =
                  | N0 -> n0
                  | Npos q -> Npos (Pos.coq_lor p q))
 
+  (** val coq_land : n -> n -> n **)
+
+  let coq_land n0 m =
+    match n0 with
+    | N0 -> N0
+    | Npos p -> (match m with
+                 | N0 -> N0
+                 | Npos q -> Pos.coq_land p q)
+
   (** val ldiff : n -> n -> n **)
 
   let ldiff n0 m =
@@ -439,6 +455,11 @@ module Z =
   | Z0 -> Z0
   | Zpos x0 -> Zneg x0
   | Zneg x0 -> Zpos x0
+
+  (** val pred : z -> z **)
+
+  let pred x =
+    add x (Zneg XH)
 
   (** val sub : z -> z -> z **)
 
@@ -622,6 +643,23 @@ module Z =
   let shiftr a n0 =
     shiftl a (opp n0)
 
+  (** val coq_lor : z -> z -> z **)
+
+  let coq_lor a b =
+    match a with
+    | Z0 -> b
+    | Zpos a0 ->
+      (match b with
+       | Z0 -> a
+       | Zpos b0 -> Zpos (Pos.coq_lor a0 b0)
+       | Zneg b0 -> Zneg (N.succ_pos (N.ldiff (Pos.pred_N b0) (Npos a0))))
+    | Zneg a0 ->
+      (match b with
+       | Z0 -> a
+       | Zpos b0 -> Zneg (N.succ_pos (N.ldiff (Pos.pred_N a0) (Npos b0)))
+       | Zneg b0 ->
+         Zneg (N.succ_pos (N.coq_land (Pos.pred_N a0) (Pos.pred_N b0))))
+
   (** val coq_land : z -> z -> z **)
 
   let coq_land a b =
@@ -638,6 +676,16 @@ module Z =
        | Zpos b0 -> of_N (N.ldiff (Npos b0) (Pos.pred_N a0))
        | Zneg b0 ->
          Zneg (N.succ_pos (N.coq_lor (Pos.pred_N a0) (Pos.pred_N b0))))
+
+  (** val lnot : z -> z **)
+
+  let lnot a =
+    pred (opp a)
+
+  (** val ones : z -> z **)
+
+  let ones n0 =
+    pred (shiftl (Zpos XH) n0)
  end
 
 (** val tl : 'a1 list -> 'a1 list **)
@@ -3256,3 +3304,292 @@ let rec sv_run n0 ops s =
 
 let sv_final s =
   app s.dropped (app (ids (view s.va)) (ids (view s.vb)))
+
+(** val bit : z -> z **)
+
+let bit t0 =
+  Z.shiftl (Zpos XH) t0
+
+(** val bset_sub : z -> z -> bool **)
+
+let bset_sub a b =
+  Z.eqb (Z.coq_land a (Z.lnot b)) Z0
+
+(** val loc_tmp_use : loc -> z **)
+
+let loc_tmp_use = function
+| Tmp t0 -> bit t0
+| _ -> Z0
+
+(** val uses : binstr -> z **)
+
+let uses = function
+| Add (_, a, b) -> Z.coq_lor (loc_tmp_use a) (loc_tmp_use b)
+| Sub (_, a, b) -> Z.coq_lor (loc_tmp_use a) (loc_tmp_use b)
+| Mul (_, a, b) -> Z.coq_lor (loc_tmp_use a) (loc_tmp_use b)
+| Copy (_, a) -> loc_tmp_use a
+| _ -> Z0
+
+(** val defs : binstr -> z **)
+
+let defs = function
+| Add (d, _, _) -> loc_tmp_use d
+| Sub (d, _, _) -> loc_tmp_use d
+| Mul (d, _, _) -> loc_tmp_use d
+| Copy (d, _) -> loc_tmp_use d
+| _ -> Z0
+
+(** val is_branch : binstr -> bool **)
+
+let is_branch = function
+| BrZ (_, _) -> true
+| BrNZ (_, _) -> true
+| _ -> false
+
+(** val succs : z -> binstr -> z list **)
+
+let succs pc = function
+| BrZ (_, off) -> (Z.add pc off) :: ((Z.add pc (Zpos XH)) :: [])
+| BrNZ (_, off) -> (Z.add pc off) :: ((Z.add pc (Zpos XH)) :: [])
+| _ -> (Z.add pc (Zpos XH)) :: []
+
+(** val cell_ok : bprog -> z -> bool **)
+
+let cell_ok p k =
+  (&&) (Z.leb p.bp_min k) (Z.leb k p.bp_max)
+
+(** val loc_ok : bprog -> bool -> loc -> bool **)
+
+let loc_ok p fuse = function
+| Mem k -> cell_ok p k
+| MemZero k -> (&&) fuse (cell_ok p k)
+| Tmp t0 -> (&&) (Z.leb Z0 t0) (Z.ltb t0 p.bp_temps)
+| Imm _ -> true
+
+(** val is_memzero : loc -> bool **)
+
+let is_memzero = function
+| MemZero _ -> true
+| _ -> false
+
+(** val mentions_cell : loc -> z -> bool **)
+
+let mentions_cell l k =
+  match l with
+  | Mem j -> Z.eqb j k
+  | MemZero j -> Z.eqb j k
+  | _ -> false
+
+(** val memzero_ok : loc -> loc -> loc -> bool **)
+
+let memzero_ok d a b =
+  (&&)
+    ((&&) (negb (is_memzero d))
+      (match a with
+       | MemZero k -> negb (mentions_cell b k)
+       | _ -> true))
+    (if loc_eqb d a
+     then (match b with
+           | MemZero k -> (match d with
+                           | Mem j -> negb (Z.eqb k j)
+                           | _ -> true)
+           | _ -> true)
+     else true)
+
+(** val dst_ok : loc -> bool **)
+
+let dst_ok = function
+| Mem _ -> true
+| Tmp _ -> true
+| _ -> false
+
+(** val instr_ok : bprog -> bool -> z -> z -> binstr -> bool **)
+
+let instr_ok p fuse len pc = function
+| Scan (c, _) -> (&&) fuse (cell_ok p c)
+| Inp d -> cell_ok p d
+| Outp s -> cell_ok p s
+| BrZ (c, off) ->
+  (&&) ((&&) (cell_ok p c) (Z.leb Z0 (Z.add pc off)))
+    (Z.leb (Z.add pc off) len)
+| BrNZ (c, off) ->
+  (&&) ((&&) (cell_ok p c) (Z.leb Z0 (Z.add pc off)))
+    (Z.leb (Z.add pc off) len)
+| Add (d, a, b) ->
+  (&&)
+    ((&&) ((&&) ((&&) (dst_ok d) (loc_ok p fuse d)) (loc_ok p fuse a))
+      (loc_ok p fuse b)) (memzero_ok d a b)
+| Sub (d, a, b) ->
+  (&&)
+    ((&&) ((&&) ((&&) (dst_ok d) (loc_ok p fuse d)) (loc_ok p fuse a))
+      (loc_ok p fuse b)) (memzero_ok d a b)
+| Mul (d, a, b) ->
+  (&&)
+    ((&&) ((&&) ((&&) (dst_ok d) (loc_ok p fuse d)) (loc_ok p fuse a))
+      (loc_ok p fuse b)) (memzero_ok d a b)
+| Copy (d, a) -> (&&) ((&&) (dst_ok d) (loc_ok p fuse d)) (loc_ok p fuse a)
+| _ -> true
+
+(** val all_instr_ok : bprog -> bool -> z -> z -> binstr list -> bool **)
+
+let rec all_instr_ok p fuse len pc = function
+| [] -> true
+| i :: rest ->
+  (&&) (instr_ok p fuse len pc i)
+    (all_instr_ok p fuse len (Z.add pc (Zpos XH)) rest)
+
+type arr = z PositiveMap.t
+
+(** val aget : arr -> z -> z -> z **)
+
+let aget a dflt i =
+  match PositiveMap.find (key_of i) a with
+  | Some v -> v
+  | None -> dflt
+
+(** val aset : arr -> z -> z -> arr **)
+
+let aset a i v =
+  PositiveMap.add (key_of i) v a
+
+(** val fwd_pass : z -> binstr list -> z -> arr -> arr -> arr **)
+
+let rec fwd_pass full code pc old new0 =
+  match code with
+  | [] -> new0
+  | i :: rest ->
+    let out = Z.coq_lor (aget old full pc) (defs i) in
+    let new' =
+      fold_left (fun n0 s -> aset n0 s (Z.coq_land (aget n0 full s) out))
+        (succs pc i) new0
+    in
+    fwd_pass full rest (Z.add pc (Zpos XH)) old new'
+
+(** val arr_eqb : z -> arr -> arr -> nat -> z -> bool **)
+
+let rec arr_eqb full a b n0 pc =
+  match n0 with
+  | O -> true
+  | S n' ->
+    (&&) (Z.eqb (aget a full pc) (aget b full pc))
+      (arr_eqb full a b n' (Z.add pc (Zpos XH)))
+
+(** val fwd_fix : nat -> z -> binstr list -> arr -> arr option **)
+
+let rec fwd_fix fuel full code cur0 =
+  match fuel with
+  | O -> None
+  | S f ->
+    let nxt = fwd_pass full code Z0 cur0 (aset PositiveMap.empty Z0 Z0) in
+    let nxt0 = aset nxt Z0 Z0 in
+    if arr_eqb full cur0 nxt0 (S (length code)) Z0
+    then Some cur0
+    else fwd_fix f full code nxt0
+
+(** val uses_defined : z -> binstr list -> z -> arr -> bool **)
+
+let rec uses_defined full code pc inn =
+  match code with
+  | [] -> true
+  | i :: rest ->
+    (&&) (bset_sub (uses i) (aget inn full pc))
+      (uses_defined full rest (Z.add pc (Zpos XH)) inn)
+
+(** val bwd_pass : binstr list -> z -> arr -> arr -> arr **)
+
+let rec bwd_pass code pc old new0 =
+  match code with
+  | [] -> new0
+  | i :: rest ->
+    let out =
+      fold_left (fun acc s -> Z.coq_lor acc (aget old Z0 s)) (succs pc i) Z0
+    in
+    let inn = Z.coq_lor (uses i) (Z.coq_land out (Z.lnot (defs i))) in
+    bwd_pass rest (Z.add pc (Zpos XH)) old (aset new0 pc inn)
+
+(** val bwd_fix : nat -> binstr list -> arr -> arr option **)
+
+let rec bwd_fix fuel code cur0 =
+  match fuel with
+  | O -> None
+  | S f ->
+    let nxt = bwd_pass code Z0 cur0 PositiveMap.empty in
+    if arr_eqb Z0 cur0 nxt (S (length code)) Z0
+    then Some cur0
+    else bwd_fix f code nxt
+
+(** val reg_mask : z -> z **)
+
+let reg_mask num_regs =
+  Z.ones (Z.min num_regs (Zpos (XO (XO (XO (XO XH))))))
+
+(** val live_ok : z -> binstr list -> z list -> z -> arr -> bool **)
+
+let rec live_ok num_regs code live pc lin =
+  match code with
+  | [] -> (match live with
+           | [] -> true
+           | _ :: _ -> false)
+  | i :: rest ->
+    (match live with
+     | [] -> false
+     | l :: lrest ->
+       (&&)
+         (if is_branch i
+          then true
+          else let out =
+                 fold_left (fun acc s -> Z.coq_lor acc (aget lin Z0 s))
+                   (succs pc i) Z0
+               in
+               bset_sub
+                 (Z.coq_land (Z.coq_land out (Z.lnot (defs i)))
+                   (reg_mask num_regs)) l)
+         (live_ok num_regs rest lrest (Z.add pc (Zpos XH)) lin))
+
+(** val bc_wf : z -> bool -> bprog -> bool **)
+
+let bc_wf num_regs fuse p =
+  let code = p.bp_code in
+  let len = Z.of_nat (length code) in
+  let full = Z.ones (Z.max p.bp_temps Z0) in
+  let fuel = S (mul (length code) (S (Z.to_nat p.bp_temps))) in
+  (&&)
+    ((&&)
+      ((&&)
+        ((&&)
+          ((&&) ((&&) (Z.leb p.bp_min Z0) (Z.leb Z0 p.bp_max))
+            (Z.leb Z0 p.bp_temps)) (Nat.eqb (length p.bp_live) (length code)))
+        (all_instr_ok p fuse len Z0 code))
+      (match fwd_fix fuel full code (aset PositiveMap.empty Z0 Z0) with
+       | Some inn -> uses_defined full code Z0 inn
+       | None -> false))
+    (match bwd_fix fuel code PositiveMap.empty with
+     | Some lin -> live_ok num_regs code p.bp_live Z0 lin
+     | None -> false)
+
+(** val bc_wf_why : z -> bool -> bprog -> z **)
+
+let bc_wf_why num_regs fuse p =
+  let code = p.bp_code in
+  let len = Z.of_nat (length code) in
+  let full = Z.ones (Z.max p.bp_temps Z0) in
+  let fuel = S (mul (length code) (S (Z.to_nat p.bp_temps))) in
+  if negb
+       ((&&) ((&&) (Z.leb p.bp_min Z0) (Z.leb Z0 p.bp_max))
+         (Z.leb Z0 p.bp_temps))
+  then Zpos (XO XH)
+  else if negb (Nat.eqb (length p.bp_live) (length code))
+       then Zpos (XI XH)
+       else if negb (all_instr_ok p fuse len Z0 code)
+            then Zpos XH
+            else (match fwd_fix fuel full code (aset PositiveMap.empty Z0 Z0) with
+                  | Some inn ->
+                    if negb (uses_defined full code Z0 inn)
+                    then Zpos (XO (XO XH))
+                    else (match bwd_fix fuel code PositiveMap.empty with
+                          | Some lin ->
+                            if live_ok num_regs code p.bp_live Z0 lin
+                            then Z0
+                            else Zpos (XI (XO XH))
+                          | None -> Zpos (XO (XI (XO (XO (XI XH))))))
+                  | None -> Zpos (XO (XO (XO (XI (XO XH))))))
